@@ -40,6 +40,8 @@ def plan(tier, seed):
     cases = [{"kind": "sample", "seed": seed, "batch": b, "n": 3} for b in range(n)]
     for k in range(8 if tier == "quick" else 60):
         cases.append({"kind": "empty", "seed": seed, "k": k})
+    for k in range(12 if tier == "quick" else 200):
+        cases.append({"kind": "synthetic", "seed": seed, "k": k, "n": 6})
     return cases
 
 
@@ -254,6 +256,92 @@ def _sample_case(res, rng, ident):
     return None
 
 
+def _synthetic_case(res, case, k):
+    """The real genotype() driven with *given* stage results: the three stage functions are replaced by
+    functions returning well-formed solution objects with drawn scores (many close scores, several
+    structures / major solutions, several refinements each), so that the selection, rescaling and ordering
+    code sees combinations that real samples produce rarely."""
+    import random
+
+    import aldy.cn
+    import aldy.major
+    import aldy.minor
+    from aldy.common import AldyException
+    from aldy.diplotype import estimate_diplotype
+    from aldy.solutions import CNSolution, MajorSolution, MinorSolution, SolvedAllele
+
+    rng = util.rng_for("c10s", case["seed"], case["k"], k)
+    db = _sim.gen_db(rng.randrange(30), rng.choice(["hg19", "hg38"]), want_cn=True)
+    g = db.gene
+    rc = db.reference_copy()
+    bam = db.sim([rc, rc], "syn.bam", 100, 20)[0]
+    normal = sorted(a for a, al in g.alleles.items() if al.cn_config == "1")
+    gap = rng.choice([0.1, 0.3, 0.5, 1.0])
+    mms = rng.choice([1, 2, 3])
+    salt = rng.getrandbits(32)
+    spread = rng.choice([0.2, 0.6, 0.95, 2.5])  # how far apart the drawn scores lie
+    base_minor = rng.choice([0.0, 0.05, 1.02, 3.4])
+    structures = [["1", "1"]] + ([["1", "1", "1"]] if rng.random() < 0.5 else [])
+    cn_scores = [round(rng.uniform(0, 1.5), 3)]
+    for _ in structures[1:]:
+        cn_scores.append(round(cn_scores[0] + rng.uniform(0, spread * 0.6), 3))
+
+    def fake_cn(gene, profile, coverage, solver, debug=None):
+        return [CNSolution(gene, sc, list(cfg)) for cfg, sc in zip(structures, cn_scores)]
+
+    def fake_major(gene, coverage, cn_solution, solver, identifier=0, debug=None):
+        r = random.Random(f"{salt}/M/{sorted(cn_solution.solution.items())}")
+        n = sum(cn_solution.solution.values())
+        combos, out = set(), []
+        for _ in range(r.choice([1, 2, 3, 4])):
+            combo = tuple(sorted(r.choice(normal) for _ in range(n)))
+            if combo in combos:
+                continue
+            combos.add(combo)
+            sc = round(r.uniform(0, spread), 4) if out else round(r.uniform(0, 0.3), 4)
+            out.append(MajorSolution(sc, collections.Counter(SolvedAllele(gene, a) for a in combo), cn_solution, []))
+        return out
+
+    def fake_minor(gene, coverage, major_sol, alleles_list, mutations, solver, max_solutions=1):
+        key = sorted((a.major, c) for a, c in major_sol.solution.items())
+        r = random.Random(f"{salt}/m/{sorted(major_sol.cn_solution.solution.items())}/{key}")
+        out, seen = [], set()
+        for _ in range(r.randint(1, max(1, max_solutions))):
+            sol = []
+            for a, c in sorted(major_sol.solution.items(), key=lambda x: x[0].major):
+                for _i in range(c):
+                    sol.append(SolvedAllele(gene, a.major, r.choice(sorted(gene.alleles[a.major].minors))))
+            sig = tuple(sorted((x.major, x.minor) for x in sol))
+            if sig in seen:
+                continue
+            seen.add(sig)
+            ms = MinorSolution(score=round(base_minor + r.uniform(0, spread), 4), solution=sol,
+                               major_solution=major_sol, profile=coverage.profile)
+            estimate_diplotype(gene, ms)
+            out.append(ms)
+        return out
+
+    desc = {"db": db.label, "synthetic": True, "gap": gap, "max_minor_solutions": mms, "structures": structures,
+            "structure_scores": cn_scores, "spread": spread, "minor_base": base_minor, "ident": [case["k"], k]}
+    saved = (aldy.cn.estimate_cn, aldy.major.estimate_major, aldy.minor.solve_minor_model)
+    aldy.cn.estimate_cn, aldy.major.estimate_major, aldy.minor.solve_minor_model = fake_cn, fake_major, fake_minor
+    try:
+        with StageRecorder() as rec:
+            try:
+                out = _sim.genotype(db, bam, db.ref_bam(100, 20), None, gap=gap, max_minor_solutions=mms)
+                err = None
+            except AldyException as e:
+                out, err = None, e
+            except Exception as e:
+                out, err = None, e
+                res.check("error_is_explanatory", False, f"the run ended with {type(e).__name__}: {e}", **desc)
+    finally:
+        aldy.cn.estimate_cn, aldy.major.estimate_major, aldy.minor.solve_minor_model = saved
+    r = check_run(res, g, rec, out, err, gap, desc)
+    res.count("synthetic_runs")
+    return desc if r and r[0] >= 2 else None
+
+
 def _empty_case(res, case):
     """Forced empty stages: a user structure for which no allele is a candidate / infeasible evidence."""
     from aldy.common import AldyException
@@ -304,6 +392,11 @@ def run(case):
                 fps.append(util.fingerprint(d))
                 if res.sample is None and case["batch"] < 4:
                     res.sample = d
+    elif case["kind"] == "synthetic":
+        for k in range(case["n"]):
+            d = _synthetic_case(res, case, k)
+            if d:
+                fps.append(util.fingerprint(d))
     else:
         _empty_case(res, case)
         fps = [util.fingerprint(case)]
